@@ -33,6 +33,9 @@ pub struct WireState {
     pub times: Vec<tokio::time::Instant>,
     /// woken on every write (scripted peers wait on it)
     pub notify: Option<Arc<tokio::sync::Notify>>,
+    /// slow flush: a flush completes this long after it was first polled (the bytes are already visible to the peer)
+    pub flush_delay: Option<std::time::Duration>,
+    pub flush_ready_at: Option<tokio::time::Instant>,
 }
 
 pub struct RecWriter(pub Arc<Mutex<WireState>>);
@@ -65,8 +68,26 @@ impl AsyncWrite for RecWriter {
         if let Some(nf) = w.notify.as_ref() { nf.notify_one(); }
         Poll::Ready(Ok(n))
     }
-    fn poll_flush(self: Pin<&mut Self>, _cx: &mut Context<'_>) -> Poll<std::io::Result<()>> {
+    fn poll_flush(self: Pin<&mut Self>, cx: &mut Context<'_>) -> Poll<std::io::Result<()>> {
         let mut w = self.0.lock().unwrap();
+        if let Some(d) = w.flush_delay {
+            let now = tokio::time::Instant::now();
+            match w.flush_ready_at {
+                None => {
+                    let at = now + d;
+                    w.flush_ready_at = Some(at);
+                    let waker = cx.waker().clone();
+                    tokio::spawn(async move { tokio::time::sleep_until(at).await; waker.wake(); });
+                    return Poll::Pending;
+                }
+                Some(at) if now < at => {
+                    let waker = cx.waker().clone();
+                    tokio::spawn(async move { tokio::time::sleep_until(at).await; waker.wake(); });
+                    return Poll::Pending;
+                }
+                Some(_) => { w.flush_ready_at = None; }
+            }
+        }
         w.flushes += 1;
         Poll::Ready(Ok(()))
     }
